@@ -16,6 +16,8 @@ executed trace is returned for the evidence file.
 
 import random
 
+import contextlib
+import io
 import numpy as np
 
 from vmon import canon, gen
@@ -209,7 +211,7 @@ class Program:
                "setitem", "setattr", "setitem_scalar", "setitem_wrong_length", "delitem", "delattr", "pop", "popitem", "colnames",
                "copy", "deepcopy", "clear", "aggregate", "count", "lod_roundtrip", "json_roundtrip", "pandas_roundtrip",
                "arrow_roundtrip", "new_kwargs", "new_from_columns", "group_by", "split", "compare_eq", "to_string", "file_roundtrip",
-               "new_mixed_lengths", "grouped_lengths_modify", "export_probe"]
+               "new_mixed_lengths", "grouped_lengths_modify", "export_probe", "compare_probe"]
         op = rng.choice(ops)
         nrow = canon.frame_nrow(df)
         names = list(dict.keys(df))
@@ -478,6 +480,31 @@ class Program:
                         self.add(out)
                     self.mon.count("construct-mixed-lengths-checked")
                 self.trace.append(f"{i}:new_mixed_lengths:{tag}")
+                self.ok_ops[op] = self.ok_ops.get(op, 0) + 1
+                return
+            elif op == "compare_probe":
+                # DataFrame.compare(other, *by, ignore_columns=[...]): neither frame nor the list argument is changed, whatever is found
+                if not names or nrow == 0 or not self.mon.nomut: return
+                try:
+                    x = df.copy()
+                    x["cmpid_"] = np.arange(nrow)
+                    y = x.slice(rows=list(range(0, nrow, 2)) or [0]) if rng.random() < 0.5 else x.copy()
+                except Exception:
+                    return
+                ign = rng.sample(names, rng.randint(0, min(2, len(names))))
+                ign0 = list(ign)
+                sx, sy = Monitors.snapshot(x), Monitors.snapshot(y)
+                try:
+                    with contextlib.redirect_stdout(io.StringIO()):
+                        x.compare(y, "cmpid_", ignore_columns=ign) if rng.random() < 0.7 else x.compare(y, "cmpid_")
+                except Exception as e:
+                    self.mon.count(f"op_raised:compare_probe:{exc_name(e)}")
+                if ign != ign0:
+                    self.mon.violate("C06", "compare:mutated-argument:ignore_columns", f"compare(..., ignore_columns={ign0}) left the caller's list as {ign}")
+                if Monitors.snapshot(x) != sx or Monitors.snapshot(y) != sy:
+                    self.mon.violate("C06", "compare:mutated-operand", "compare changed one of the frames")
+                self.mon.count("compare-probes")
+                self.trace.append(f"{i}:compare_probe")
                 self.ok_ops[op] = self.ok_ops.get(op, 0) + 1
                 return
             elif op == "export_probe":
